@@ -1,3 +1,4 @@
+import HqModel.Props.C09Pipe
 import HqModel.Props.C09Compose
 import HqModel.Props.C09Core
 import HqModel.Props.C09Rpc
